@@ -1065,6 +1065,7 @@ func genCacheFile(repo string) (text string, err error) {
 	disc, level := cacheIOFacts(load("cmd/gts/io.go"))
 	fmt.Fprintf(&b, "/-- cmd/gts/io.go `(*ioDelegate).Close`: `if err := d.cache.Close(); A || B { os.Remove(d.cache.Name()) }` —\nthe disjuncts of the condition; `close-error` is `err != nil` for the error of `d.cache.Close()`,\n`not-committed` is `!d.done` -/\ndef ioCloseDiscard : List String := %s\n\n", leanStrList(disc))
 	fmt.Fprintf(&b, "/-- cmd/gts/io.go `TryCache`: the compression level passed to `cache.CreateLevel` -/\ndef tryCacheLevel : Int := %s\n\n", level)
+	fmt.Fprintf(&b, "/-- cmd/gts/io.go `TryCache`: `f, err := cache.Open(…); if <this> { … cache.CreateLevel … }` — when an entry is\n(re)created; `open-error` is `err != nil` for the error of `cache.Open` -/\ndef tryCacheMissCond : String := %s\n\n", leanStr(cacheMissCond(load("cmd/gts/io.go"))))
 	b.WriteString("end Gts.Gen.CacheFile\n")
 	return b.String(), nil
 }
@@ -1187,4 +1188,61 @@ func cacheIOFacts(af *ast.File) ([]string, string) {
 		refuse("io.go TryCache: %d calls of cache.CreateLevel, expected one", len(levels))
 	}
 	return disc, levels[0]
+}
+
+// cmd/gts/io.go TryCache: `f, err := cache.Open(…)` followed by `if COND { … cache.CreateLevel … }`:
+// the condition under which an entry is (re)created, with the error of cache.Open named
+func cacheMissCond(af *ast.File) string {
+	var tryFn *ast.FuncDecl
+	for _, d := range af.Decls {
+		fd, ok := d.(*ast.FuncDecl)
+		if ok && fd.Recv != nil && fd.Name.Name == "TryCache" && fd.Body != nil {
+			tryFn = fd
+		}
+	}
+	if tryFn == nil {
+		refuse("cmd/gts/io.go: TryCache not found")
+	}
+	cond := ""
+	list := tryFn.Body.List
+	for i, st := range list {
+		as, ok := st.(*ast.AssignStmt)
+		if !ok || len(as.Rhs) != 1 || len(as.Lhs) != 2 {
+			continue
+		}
+		c, ok := as.Rhs[0].(*ast.CallExpr)
+		if !ok || exprString(c.Fun) != "cache.Open" {
+			continue
+		}
+		errName := identName(as.Lhs[1])
+		if i+1 >= len(list) {
+			refuse("io.go TryCache: nothing follows cache.Open")
+		}
+		ifs, ok := list[i+1].(*ast.IfStmt)
+		if !ok || ifs.Init != nil || len(callsOf(ifs.Body, "cache.CreateLevel")) != 1 {
+			refuse("io.go TryCache: cache.Open is not followed by `if … { … cache.CreateLevel … }`")
+		}
+		if cond != "" {
+			refuse("io.go TryCache: cache.Open called twice")
+		}
+		cond = exprString(ifs.Cond)
+		if cond == errName+" != nil" {
+			cond = "open-error"
+		}
+	}
+	if cond == "" {
+		refuse("io.go TryCache: no call of cache.Open")
+	}
+	return cond
+}
+
+func callsOf(n ast.Node, fun string) []*ast.CallExpr {
+	var out []*ast.CallExpr
+	ast.Inspect(n, func(x ast.Node) bool {
+		if c, ok := x.(*ast.CallExpr); ok && exprString(c.Fun) == fun {
+			out = append(out, c)
+		}
+		return true
+	})
+	return out
 }
